@@ -77,6 +77,14 @@ def gen(seed, idx, tier):
         }
         variants.append(v)
     variants[0].update(threads=1, chunk=0, affinity=None, prework=None)
+    # what happened to the Device object earlier is not an input of the simulation either: some members
+    # run on a device that was already simulated on (before it was moved, if the scenario moves it)
+    fu_ = scn["options"].get("field_units", "mT")
+    for v in variants[1:]:
+        if rnd.random() < 0.3:
+            v["device_used_before"] = {"steps": rnd.choice([2, 3]), "B": scen.r3(0.2 * scen.FIELD_FACTOR[fu_]), "terminal_psi": rnd.choice(["zero", "none"])}
+    if not large and rnd.random() < 0.3:
+        scn["device_moved"] = {"dx": rnd.choice([0.0, 0.7, -1.3, 2.5]), "dy": rnd.choice([0.4, -0.9, 1.7])}
     if screening:
         variants[1]["threads"] = 16
         variants[2]["threads"] = 16
@@ -132,7 +140,7 @@ def execute_inproc(scn, var, seed_solution=None):
     from ..engine import run_scenario
 
     s = copy.deepcopy(scn)
-    s["env"] = {"threads": var.get("threads", 1), "clock": var.get("clock"), "rng_seed": var.get("rng_seed", 1), "cwd": var.get("cwd", "work")}
+    s["env"] = {"threads": var.get("threads", 1), "clock": var.get("clock"), "rng_seed": var.get("rng_seed", 1), "cwd": var.get("cwd", "work"), "device_used_before": var.get("device_used_before")}
     s["observer"] = {"output": var.get("output")}
     old_chunk = numba.get_parallel_chunksize()
     if var.get("chunk"):
